@@ -1,0 +1,54 @@
+//go:build verif
+
+package api
+
+// Contracts for the govc verification-condition generator (/verif/govc).
+// This file is comment-only and guarded by the build tag `verif`.
+
+// ---- nodes.go (C09): the token / JWT gate in front of every node route ------------------------------------------
+// busOps(nc) counts the bus operations made through the client package on the handler's connection (every
+// client.* call the handler can make is a trusted extern that increments it). bearerOK(v, req) is the verdict of
+// the request validator (Key.Valid in production) as a function of the request.
+
+//@ spec func bearerOK(v RequestValidator, req *http.Request) bool
+//@ extern api.(RequestValidator).Valid(self, req)
+//@   ensures res0 == bearerOK(self, req)
+//@ extern api.ShiftPath(p)
+//@ extern api.decode(r, v)
+//@   modifies pointee(v)
+//@ extern api.encode(w, v)
+//@ extern client.GetNodesForUser(nc, userID)
+//@   fresh res0
+//@   modifies state(nc)
+//@   ensures busOps(nc) == old(busOps(nc)) + 1
+//@ extern client.DeleteNode(nc, id, parent, origin)
+//@   modifies state(nc)
+//@   ensures busOps(nc) == old(busOps(nc)) + 1
+//@ extern client.MoveNode(nc, id, oldParent, newParent, origin)
+//@   modifies state(nc)
+//@   ensures busOps(nc) == old(busOps(nc)) + 1
+//@ extern client.MirrorNode(nc, id, newParent, origin)
+//@   modifies state(nc)
+//@   ensures busOps(nc) == old(busOps(nc)) + 1
+//@ extern client.DuplicateNode(nc, id, newParent, origin)
+//@   modifies state(nc)
+//@   ensures busOps(nc) == old(busOps(nc)) + 1
+// insertNode and processPoints (decode the body, stamp the origin, client.SendNode / SendNodePoints) are treated as
+// bus operations as a whole.
+//@ extern api.(*Nodes).insertNode(h, res, req, userID)
+//@   modifies state(h.nc), res
+//@   ensures busOps(h.nc) >= old(busOps(h.nc))
+//@ extern api.(*Nodes).processPoints(h, res, req, id, userID)
+//@   modifies state(h.nc), res
+//@   ensures busOps(h.nc) >= old(busOps(h.nc))
+
+//@ spec func authorised(h *Nodes, req *http.Request) bool = hdrGet(req.Header, "Authorization") == h.authToken || bearerOK(h.check, req)
+//@ func (*Nodes).ServeHTTP
+//@   props C09
+//@   local h *api.Nodes#1
+//@   local res http.ResponseWriter#1
+//@   local req *http.Request#1
+//@   requires h != nil && req != nil && req.URL != nil
+//@   modifies req.URL, state(h.nc), res
+//@   ensures [C09] unauthorised-gets-401-and-no-bus-access: !old(authorised(h, req)) ==> busOps(h.nc) == old(busOps(h.nc)) && respN(res) == old(respN(res)) + 1 && respStatus(res) == 401
+//@   assert [C09] publish-only-when-authorised: authorised(h, req) at "h.nc.Publish(\"node.\"+id+\".not\", d)"
